@@ -315,9 +315,8 @@ class RedshiftBinningFactory:
         """Creates a binning linear in comoving distance between a min and max
         redshift."""
         comov_min, comov_cmax = self.cosmology.comoving_distance([min, max])
+        # NOTE: plain floats if a custom cosmology returns distances without units
         comov_edges = np.linspace(comov_min, comov_cmax, num_bins + 1)
-        if not isinstance(comov_edges, units.Quantity):
-            comov_edges = comov_edges * units.Mpc
 
         # invert only the inner edges, the outer edges are min and max exactly
         edges = np.empty(num_bins + 1)
